@@ -393,9 +393,16 @@ func scenC25(e *Env) func() {
 	if e.Chance(20) {
 		p.SeekFaultEvery = Pick(e, 1, 2, 3)
 	}
+	alignStop := p.StopMs >= 0 && e.Chance(50)
 	n := e.Range(4, 12)
 	for i := 0; i < n; i++ {
 		p.Reqs = append(p.Reqs, c25Req{File: Pick(e, "a.txt", "big.txt", "big.txt", "k8193.bin", "dir/sub.txt", "one.txt"), GapMs: Pick(e, 0, 0, 50, 200, 600, 1500), Window: Pick(e, 0, 0, 100, 2000), SlowMs: Pick(e, 0, 0, 50, 400), AE: Pick(e, "", "", "gzip"), Abort: Pick(e, 0, 0, 0, 500)})
+	}
+	if alignStop {
+		// CleanStop is closed at the instant one of the requests is served (and its reader
+		// lets go of the file): the two then interleave at lock granularity
+		r := p.Reqs[e.Int(len(p.Reqs))]
+		p.StopMs = r.GapMs + Pick(e, 0, 0, r.SlowMs)
 	}
 	e.Sample = p
 	e.Cfg.Holds, e.Cfg.HoldMax = Pick(e, 0, 0, 2), 200*time.Millisecond
